@@ -28,6 +28,12 @@ import (
 
 const childEnv = "VERIF_C19_CHILD"
 
+// job is one line parent->child.
+type job struct {
+	Case   Case  `json:"case"`
+	HangMs int64 `json:"hang_ms"`
+}
+
 type event struct {
 	Ev     string  `json:"ev"`
 	I      int     `json:"i,omitempty"`
@@ -46,12 +52,12 @@ func ChildMain() {
 	for {
 		line, err := in.ReadBytes('\n')
 		if len(line) > 0 {
-			var c Case
-			if jerr := json.Unmarshal(line, &c); jerr != nil {
+			var j job
+			if jerr := json.Unmarshal(line, &j); jerr != nil {
 				fmt.Fprintf(os.Stderr, "child: bad case: %v\n", jerr)
 				os.Exit(4)
 			}
-			res := runCase(c, func(i int, rpc, wire string) { _ = enc.Encode(event{Ev: "start", I: i, RPC: rpc, Wire: wire}) })
+			res := runCaseHang(j.Case, time.Duration(j.HangMs)*time.Millisecond, func(i int, rpc, wire string) { _ = enc.Encode(event{Ev: "start", I: i, RPC: rpc, Wire: wire}) })
 			_ = enc.Encode(event{Ev: "result", Result: &res})
 			if res.Dirty {
 				os.Exit(0) // leaked work may still be running: start from a clean process
@@ -197,7 +203,7 @@ func headTail(s string, n int) string {
 }
 
 // execChild runs the case in the worker process.
-func execChild(c Case) (res Result, err error) {
+func execChild(c Case, hang time.Duration) (res Result, err error) {
 	workerMu.Lock()
 	defer workerMu.Unlock()
 	if os.Getenv("VERIF_C19_TRACE") == "1" {
@@ -213,7 +219,7 @@ func execChild(c Case) (res Result, err error) {
 			fmt.Fprintf(os.Stderr, "p19-trace: case model=%s reqs=%d took %v fail=%q dirty=%v\n", c.ModelSrc, len(c.Reqs), time.Since(t0).Round(time.Millisecond), sig, res.Dirty)
 		}()
 	}
-	line, err := json.Marshal(c)
+	line, err := json.Marshal(job{Case: c, HangMs: hang.Milliseconds()})
 	if err != nil {
 		return Result{}, err
 	}
@@ -245,9 +251,9 @@ func execChild(c Case) (res Result, err error) {
 		// in flight (the worker itself reports a hang after reqDeadline+hangAfter unless it is
 		// starved by what the request set off).
 		for {
-			budget := reqDeadline + hangAfter + 25*time.Second
+			budget := reqDeadline + hang + 25*time.Second
 			if lastI > setupPhase {
-				budget = reqDeadline + hangAfter + 6*time.Second
+				budget = reqDeadline + hang + 6*time.Second
 			}
 			select {
 			case ev, ok := <-w.events:
